@@ -1,0 +1,175 @@
+// Copyright ©2026 The Gonum Authors. All rights reserved.
+// Use of this source code is governed by a BSD-style
+// license that can be found in the LICENSE file.
+
+//go:build verif
+
+package mat
+
+// Machine-checked contracts for package mat (verification hook, build tag
+// verif; this file contains comments only). See /verif/DESIGN.md.
+//
+// wfDense is the representation invariant of Dense: an empty matrix has all
+// dimensions zero; otherwise the dimensions are positive, the stride covers the
+// columns, the data slice covers the last row, and the capacities cover the
+// dimensions.
+
+//@ spec wfDense(m *Dense) bool = m != nil && m.mat.Rows >= 0 && m.mat.Cols >= 0 && m.mat.Rows <= m.capRows && m.mat.Cols <= m.capCols &&
+//@   ((m.mat.Stride == 0 && m.mat.Rows == 0 && m.mat.Cols == 0) ||
+//@    (m.mat.Rows > 0 && m.mat.Cols > 0 && m.mat.Stride >= m.mat.Cols && m.mat.Stride >= m.capCols &&
+//@     len(m.mat.Data) >= (m.mat.Rows-1)*m.mat.Stride+m.mat.Cols &&
+//@     cap(m.mat.Data) >= (m.capRows-1)*m.mat.Stride+m.capCols))
+
+//@ func NewDense props: C04 C07(safety)
+//@ valid r > 0 && c > 0 && (data == nil || len(data) == r*c)
+//@ panics iff !valid, before-writes
+//@ ensures wfDense(result) && result.mat.Rows == r && result.mat.Cols == c && result.mat.Stride == c
+//@ ensures data != nil ==> sameSlice(result.mat.Data, data)
+
+//@ func Dense.IsEmpty props: C04 C07(safety)
+//@ requires wfDense(m)
+//@ ensures result == (m.mat.Rows == 0)
+
+//@ func Dense.Dims props: C04 C07(safety)
+//@ requires wfDense(m)
+//@ ensures r == m.mat.Rows && c == m.mat.Cols
+
+//@ func Dense.At props: C04 C07(safety)
+//@ requires wfDense(m)
+//@ valid 0 <= i && i < m.mat.Rows && 0 <= j && j < m.mat.Cols
+//@ panics iff !valid, before-writes
+//@ ensures same(result, m.mat.Data[i*m.mat.Stride+j])
+
+// at and set are the unchecked accessors (checked only with build tag bounds):
+// the index range is the caller's obligation.
+
+//@ func Dense.at props: C04 C07(safety)
+//@ requires wfDense(m) && 0 <= i && i < m.mat.Rows && 0 <= j && j < m.mat.Cols
+//@ ensures same(result, m.mat.Data[i*m.mat.Stride+j])
+
+//@ func Dense.Set props: C04 C07(safety)
+//@ requires wfDense(m)
+//@ valid 0 <= i && i < m.mat.Rows && 0 <= j && j < m.mat.Cols
+//@ panics iff !valid, before-writes
+//@ writes m.mat.Data[i*m.mat.Stride+j]
+//@ ensures same(m.mat.Data[i*m.mat.Stride+j], v)
+
+//@ func Dense.set props: C04 C07(safety)
+//@ requires wfDense(m) && 0 <= i && i < m.mat.Rows && 0 <= j && j < m.mat.Cols
+//@ writes m.mat.Data[i*m.mat.Stride+j]
+//@ ensures same(m.mat.Data[i*m.mat.Stride+j], v)
+
+//@ func Dense.Caps props: C04 C07(safety)
+//@ requires wfDense(m)
+//@ ensures r == m.capRows && c == m.capCols
+
+// reuseAs*: receiver sizing rule. An empty receiver becomes r x c with stride c;
+// a sized receiver must already be r x c and keeps its storage and stride.
+
+//@ func Dense.reuseAsNonZeroed props: C04 C07(safety)
+//@ requires wfDense(m) && r >= 0 && c >= 0
+//@ valid r != 0 && c != 0 && (m.mat.Rows == 0 || (r == m.mat.Rows && c == m.mat.Cols))
+//@ panics iff !valid
+//@ modifies m
+//@ ensures wfDense(m) && m.mat.Rows == r && m.mat.Cols == c
+//@ ensures old(m.mat.Rows) != 0 ==> sameSlice(m.mat.Data, old(m.mat.Data)) && m.mat.Stride == old(m.mat.Stride)
+//@ ensures old(m.mat.Rows) == 0 ==> m.mat.Stride == c && len(m.mat.Data) == r*c
+
+//@ func Dense.reuseAsZeroed props: C04 C07(safety)
+//@ requires wfDense(m) && r >= 0 && c >= 0
+//@ valid r != 0 && c != 0 && (m.mat.Rows == 0 || (r == m.mat.Rows && c == m.mat.Cols))
+//@ panics iff !valid
+//@ modifies m
+//@ writes m.mat.Data[k] for k in 0..r*c if m.mat.Rows == 0 ; m.mat.Data[i*m.mat.Stride+j] for i in 0..m.mat.Rows, j in 0..m.mat.Cols
+//@ ensures wfDense(m) && m.mat.Rows == r && m.mat.Cols == c
+//@ ensures old(m.mat.Rows) != 0 ==> sameSlice(m.mat.Data, old(m.mat.Data)) && m.mat.Stride == old(m.mat.Stride)
+//@ ensures old(m.mat.Rows) == 0 ==> m.mat.Stride == c && len(m.mat.Data) == r*c
+
+// Slice / slice: the result is a view of the same backing array: cell (p, q)
+// of the view is cell (i+p, j+q) of the receiver.
+
+//@ func Dense.slice props: C04 C07(safety)
+//@ requires wfDense(m) && m.mat.Rows > 0
+//@ valid 0 <= i && i < m.capRows && 0 <= j && j < m.capCols && i < k && k <= m.capRows && j < l && l <= m.capCols
+//@ panics iff !valid, before-writes
+//@ ensures wfDense(result) && result.mat.Rows == k-i && result.mat.Cols == l-j && result.mat.Stride == m.mat.Stride
+//@ ensures result.mat.Data.rid == m.mat.Data.rid && result.mat.Data.off == m.mat.Data.off + i*m.mat.Stride + j
+
+// ---- aliasing (C05) -------------------------------------------------------------
+
+// rectanglesOverlap decides whether two column windows of one strided layout
+// share a cell: a occupies columns [0, aCols) of every row, b occupies columns
+// [0, bCols) shifted by off cells. A negative answer means no common cell.
+
+//@ func rectanglesOverlap props: C05
+//@ requires off > 0 && stride >= 1 && 0 <= aCols && 0 <= bCols && (stride == 1 || (aCols <= stride && bCols <= stride))
+//@ ensures forall(i, forall(k, forall(j, 0, aCols, forall(l, 0, bCols, !result && i >= 0 && k >= 0 ==> i*stride+j != off+k*stride+l))))
+//@ ensures result && bCols > 0 ==> stride == 1 || off%stride < aCols || off%stride+bCols > stride
+
+// offset is the unsafe address difference of two non-empty slices (trusted
+// memory model): within one allocation it is the difference of the offsets;
+// distinct allocations are placed so that neither lies inside the other.
+
+//@ trusted offset
+//@ requires len(a) >= 1 && len(b) >= 1
+//@ ensures a.rid == b.rid ==> result == b.off - a.off
+//@ ensures a.rid != b.rid ==> result >= cap(a) || -result >= cap(b)
+
+//@ spec wfGen(g blas64.General) bool = g.Rows >= 0 && g.Cols >= 0 && g.Stride >= 1 && g.Stride >= g.Cols && (g.Rows == 0 || g.Cols == 0 || len(g.Data) >= (g.Rows-1)*g.Stride+g.Cols)
+//@ spec common(a blas64.General, b blas64.General) bool = a.Data.rid == b.Data.rid &&
+//@   exists(i, 0, a.Rows, exists(j, 0, a.Cols, exists(k, 0, b.Rows, exists(l, 0, b.Cols, a.Data.off+i*a.Stride+j == b.Data.off+k*b.Stride+l))))
+
+// checkOverlap returns only if the two matrices have no element in common.
+
+//@ spec noCommon(a blas64.General, b blas64.General) bool =
+//@   forall(i, 0, a.Rows, forall(j, 0, a.Cols, forall(k, 0, b.Rows, forall(l, 0, b.Cols, a.Data.rid == b.Data.rid ==> a.Data.off+i*a.Stride+j != b.Data.off+k*b.Stride+l))))
+
+//@ func checkOverlap props: C05
+//@ requires wfGen(a) && wfGen(b)
+//@ option may-panic
+//@ ensures noCommon(a, b)
+//@ panic-ensures a.Stride == b.Stride && tight(a) && tight(b) ==> a.Data.rid == b.Data.rid &&
+//@   ite(b.Data.off >= a.Data.off, sharesAt(a, b, b.Data.off-a.Data.off), sharesAt(b, a, a.Data.off-b.Data.off))
+
+// No false rejection: for equal strides and exactly sized data slices (as
+// produced by NewDense and Slice), an overlap panic is raised only if the two
+// windows really share a cell. The shared cell is named explicitly: with
+// d = b.off - a.off >= 0, either b(0,0) is a(d/S, d%S), or the first row of b
+// wraps into the next row of the layout and reaches a(d/S+1, 0).
+
+//@ spec tight(g blas64.General) bool = g.Rows > 0 && g.Cols > 0 && g.Stride >= g.Cols && len(g.Data) == (g.Rows-1)*g.Stride+g.Cols
+//@ spec cellIn(g blas64.General, r int, c int) bool = 0 <= r && r < g.Rows && 0 <= c && c < g.Cols
+//@ spec sharesAt(a blas64.General, b blas64.General, d int) bool = cellIn(a, d/a.Stride, d%a.Stride) || (d%a.Stride+b.Cols > a.Stride && cellIn(a, d/a.Stride+1, 0))
+
+//@ spec wfVec(v blas64.Vector) bool = v.N >= 0 && v.Inc >= 1 && (v.N == 0 || len(v.Data) >= (v.N-1)*v.Inc+1)
+//@ spec noCommonVec(a blas64.Vector, b blas64.Vector) bool =
+//@   forall(i, 0, a.N, forall(k, 0, b.N, a.Data.rid == b.Data.rid ==> a.Data.off+i*a.Inc != b.Data.off+k*b.Inc))
+//@ spec tightVec(v blas64.Vector) bool = v.N > 0 && v.Inc >= 1 && len(v.Data) == (v.N-1)*v.Inc+1
+
+// (*VecDense).checkOverlap returns only if the two vectors share no element,
+// and (for equal increments and exactly sized data) panics only if they do.
+
+//@ func VecDense.checkOverlap props: C05
+//@ requires v != nil && wfVec(v.mat) && wfVec(a)
+//@ option may-panic
+//@ ensures noCommonVec(v.mat, a)
+//@ panic-ensures v.mat.Inc == a.Inc && tightVec(v.mat) && tightVec(a) ==> v.mat.Data.rid == a.Data.rid && (a.Data.off-v.mat.Data.off)%a.Inc == 0 &&
+//@   ite(a.Data.off >= v.mat.Data.off, (a.Data.off-v.mat.Data.off)/a.Inc < v.mat.N, (v.mat.Data.off-a.Data.off)/a.Inc < a.N)
+
+// ---- VecDense element-wise methods (C04 / C05) -----------------------------------
+
+// (the data slice of a vector produced by this package ends at its last element)
+//@ spec wfVD(v *VecDense) bool = v != nil && ((v.mat.Inc == 0 && v.mat.N == 0) || (v.mat.N > 0 && v.mat.Inc >= 1 && len(v.mat.Data) == (v.mat.N-1)*v.mat.Inc+1))
+
+// DivElemVec with *VecDense operands: the result is the element-wise quotient
+// of the operands' values at entry, also when the receiver is one of the
+// operands, or the method panics (shape, overlap); operands other than the
+// receiver are not written.
+
+//@ func VecDense.DivElemVec props: C04 C05
+//@ option timeout=40000
+//@ requires wfVD(v) && hasType(a, *VecDense) && hasType(b, *VecDense) && wfVD(unbox(a, *VecDense)) && wfVD(unbox(b, *VecDense))
+//@ option may-panic
+//@ modifies v
+//@ ensures forall(i, 0, old(unbox(a, *VecDense).mat.N), same(v.mat.Data[i*v.mat.Inc],
+//@     old(unbox(a, *VecDense).mat.Data[i*unbox(a, *VecDense).mat.Inc]) / old(unbox(b, *VecDense).mat.Data[i*unbox(b, *VecDense).mat.Inc])))
